@@ -67,7 +67,7 @@ pub fn gen_pkey(ktype: &str, rng: &mut Rng) -> PKey<Private> {
 		"p256" => PKey::from_ec_key(EcKey::generate(&EcGroup::from_curve_name(Nid::X9_62_PRIME256V1).unwrap()).unwrap()).unwrap(),
 		"p384" => PKey::from_ec_key(EcKey::generate(&EcGroup::from_curve_name(Nid::SECP384R1).unwrap()).unwrap()).unwrap(),
 		"p521" => PKey::from_ec_key(EcKey::generate(&EcGroup::from_curve_name(Nid::SECP521R1).unwrap()).unwrap()).unwrap(),
-		"rsa" | "rsa2048" | "rsa3072" | "rsa4096" => {
+		"rsa" | "rsa2048" | "rsa3072" | "rsa4096" | "rsa8192" => {
 			let bits = if ktype == "rsa" { "2048" } else { &ktype[3..] };
 			let which = if rng.chance(1, 2) { "a" } else { "b" };
 			let der = std::fs::read(format!("{}/rsa{}_{}.pk8", fixture_dir(), bits, which)).expect("rsa fixture");
@@ -123,6 +123,8 @@ pub fn trunc20(alg: &'static ring::digest::Algorithm, data: &[u8]) -> Vec<u8> {
 pub fn key_json(k: &KeyInfo) -> Value {
 	json!({
 		"h": k.h, "alg": k.alg, "type": k.ktype, "src": k.src, "spki": hex(&k.spki), "raw": hex(&k.raw_pub),
+		// RSA: modulus length in bits (the RSAPublicKey inside the SPKI holds modulus and exponent only); 0 otherwise
+		"bits": if k.ktype == "rsa" { ((k.raw_pub.len().saturating_sub(14)) / 128 * 1024) as u64 } else { 0 },
 		"sha256": bytes_json(&trunc20(&ring::digest::SHA256, &k.spki)),
 		"sha384": bytes_json(&trunc20(&ring::digest::SHA384, &k.spki)),
 		"sha512": bytes_json(&trunc20(&ring::digest::SHA512, &k.spki)),
